@@ -2,6 +2,7 @@
 CONSTANTS
   Mods = {"A", "B", "C"}
   Order <- Order3
+  Collide = FALSE
   Hooks <- Hooks_none3
   Flags <- Flags_none
   CtxPersist = TRUE
